@@ -1,6 +1,7 @@
 package mon
 
 import (
+	"net/http"
 	"context"
 	"errors"
 	"fmt"
@@ -15,7 +16,7 @@ func init() { Monitors["C10"] = runC10 }
 
 type ctxKeyT string
 
-var dirtyActions = []string{"set", "adderror", "replace-resp", "replace-req", "abort", "status", "write", "params", "sethandlers-noop", "header", "retain", "params-inplace", "query-mutate", "render-fail", "render-ok", "allowed-inplace", "redispatch"}
+var dirtyActions = []string{"set", "adderror", "replace-resp", "replace-req", "abort", "status", "write", "params", "sethandlers-noop", "header", "retain", "params-inplace", "query-mutate", "render-fail", "render-ok", "allowed-inplace", "redispatch", "hijack"}
 
 // c10Renderer writes part of the page and then fails when asked to.
 type c10Renderer struct{}
@@ -99,6 +100,13 @@ func dirtyContext(c *rux.Context, rec *Rec, actions []string) {
 			// (the arming header is removed first, so the second dispatch is a plain one)
 			c.Req.Header.Del("X-Dirty")
 			c.Router().HandleContext(c)
+		case "hijack":
+			// the handler takes over the connection (websocket style) through the writer it was given
+			if hj, ok := c.Resp.(http.Hijacker); ok {
+				if conn, _, err := hj.Hijack(); err == nil && conn != nil {
+					_ = conn.Close()
+				}
+			}
 		case "query-mutate":
 			// the handler edits the parsed query values it was given
 			q := c.QueryValues()
